@@ -464,6 +464,285 @@ def r103_c17 (v : V103) : List Code :=
     | some es => (es.filter (fun e => e.code == "TELE".toList || e.code == "PHON".toList)).map (fun _ => "E45")
     | none => []) else []
 
+/-! ### MT101 -/
+structure Tx101 where
+  has36 : Bool
+  has21f : Bool
+  has33b : Bool
+  has50cl : Bool           -- instructing party (50C/50L) in the transaction
+  has50fgh : Bool          -- ordering customer (50F/50G/50H) in the transaction
+  has52 : Bool
+  has56 : Bool
+  has57 : Bool
+  ccy32b : Text
+  ccy33b : Text
+  zero32b : Option Bool    -- |amount| < 0.01 (`none`: not a plain decimal)
+  e23 : Option (List E23)
+structure V101 where
+  has21r : Bool
+  a50cl : Bool
+  a50fgh : Bool
+  a52 : Bool
+  txs : List Tx101
+/-- |d| < 1/100 -/
+def lessThanCent (d : Dec) : Bool := d.mant * 100 < 10 ^ d.scale
+def view101 (m : J) : V101 :=
+  { has21r := has "MT101" m "field_21r", a50cl := has "MT101" m "instructing_party", a50fgh := has "MT101" m "ordering_customer",
+    a52 := has "MT101" m "field_52a",
+    txs := (fieldList "MT101" m "transactions").map (fun t =>
+      let f32 := field "MT101Transaction" t "field_32b"
+      { has36 := has "MT101Transaction" t "field_36", has21f := has "MT101Transaction" t "field_21f",
+        has33b := has "MT101Transaction" t "field_33b", has50cl := has "MT101Transaction" t "instructing_party_tx",
+        has50fgh := has "MT101Transaction" t "ordering_customer_tx", has52 := has "MT101Transaction" t "field_52",
+        has56 := has "MT101Transaction" t "field_56", has57 := has "MT101Transaction" t "field_57",
+        ccy32b := strOf f32 "currency", ccy33b := strOf (field "MT101Transaction" t "field_33b") "currency",
+        zero32b := ((f32.bind (·.getSome "amount")).bind absDec).map lessThanCent,
+        e23 := e23list "MT101Transaction" t "field_23e" }) }
+def r101_c1 (v : V101) : List Code := v.txs.flatMap (fun t => if t.has36 && !t.has21f then ["D54"] else [])
+def r101_c2 (v : V101) : List Code :=
+  v.txs.flatMap (fun t =>
+    if t.has33b then
+      (match t.zero32b with
+       | some true => if t.has36 then ["D60"] else []
+       | some false => if !t.has36 then ["D60"] else []
+       | none => [])
+    else (if t.has36 then ["D60"] else []))
+def r101_c3 (v : V101) : Option Code :=
+  let inAll := !v.txs.isEmpty && v.txs.all (·.has50fgh)
+  let inAny := v.txs.any (·.has50fgh)
+  if v.a50fgh && inAny then some "D61" else if !v.a50fgh && !inAll then some "D61" else none
+def r101_c4 (v : V101) : Option Code := if v.a50cl && v.txs.any (·.has50cl) then some "D62" else none
+def r101_c5 (v : V101) : List Code := v.txs.flatMap (fun t => if t.has33b && t.ccy32b == t.ccy33b then ["D68"] else [])
+def r101_c6 (v : V101) : Option Code := if v.a52 && v.txs.any (·.has52) then some "D64" else none
+def r101_c7 (v : V101) : List Code := v.txs.flatMap (fun t => if t.has56 && !t.has57 then ["D65"] else [])
+def r101_c8 (v : V101) : Option Code :=
+  if !v.has21r then none else
+  match v.txs with
+  | [] => none
+  | first :: rest => if rest.any (·.ccy32b != first.ccy32b) then some "D98" else none
+def r101_c9 (v : V101) : List Code :=
+  v.txs.flatMap (fun t =>
+    match t.zero32b with
+    | some true =>
+      let equi := match t.e23 with | some es => es.any (fun e => e.code == "EQUI".toList) | none => false
+      if equi then (if !t.has33b then ["E54"] else [])
+      else (if t.has33b then ["E54"] else []) ++ (if t.has21f then ["E54"] else [])
+    | _ => [])
+/-- per-element pass of MT101 `validate_field_23e` (OTHR may repeat) -/
+def e23Loop101 (valid withInfo : List Text) : List E23 → List Text → List Code
+  | [], _ => []
+  | e :: rest, seen =>
+    (if valid.contains e.code then [] else ["T47"]) ++
+    (if e.hasInfo && !(withInfo.contains e.code) then ["D66"] else []) ++
+    (if e.code != "OTHR".toList && seen.contains e.code then ["E46"] else []) ++
+    e23Loop101 valid withInfo rest (if e.code != "OTHR".toList then e.code :: seen else seen)
+def r101_23e (v : V101) : List Code :=
+  v.txs.flatMap (fun t =>
+    match t.e23 with
+    | none => []
+    | some es =>
+      e23Loop101 (tbl 101 "MT101_VALID_23E_CODES") (tbl 101 "CODES_WITH_ADDITIONAL_INFO") es [] ++
+      es.flatMap (fun e => (pairTbl 101 "INVALID_23E_COMBINATIONS").flatMap (fun p =>
+        if e.code == p.1 then (es.filter (fun o => p.2.contains o.code)).map (fun _ => "D67") else [])))
+
+/-! ### MT104 (and the parts MT107 shares) -/
+structure Tx104 where
+  e23 : Option E23           -- field 23E of the transaction
+  has21e : Bool
+  hasCreditor : Bool
+  hasInstr : Bool
+  has52 : Bool
+  has26t : Bool
+  has71a : Bool
+  has77b : Bool
+  has36 : Bool
+  ccy32b : Text
+  amt32b : Option Dec
+  c33b : Option (Text × Option Dec)
+  ccy71f : Option Text
+  ccy71g : Option Text
+structure V104 where
+  has21r : Bool
+  e23 : Option E23
+  has21e : Bool
+  hasCreditor : Bool
+  hasInstr : Bool
+  has52 : Bool
+  has26t : Bool
+  has71a : Bool
+  has77b : Bool
+  has72 : Bool
+  txs : List Tx104
+  c32b : Option (Text × Option Dec)      -- sequence C settlement amount
+  amt19 : Option (Option Dec)
+  ccy71f : Option Text
+  ccy71g : Option Text
+def e23one (f : Option J) : Option E23 :=
+  f.map (fun e => ⟨(e.strAt "instruction_code").getD [], (e.getSome "additional_info").isSome⟩)
+def ccyAmt (f : Option J) : Option (Text × Option Dec) :=
+  f.map (fun x => ((x.strAt "currency").getD [], (x.getSome "amount").bind absDec))
+def tx104 (tn : String) (t : J) : Tx104 :=
+  let f32 := field tn t "field_32b"
+  { e23 := e23one (field tn t "field_23e"), has21e := has tn t "field_21e", hasCreditor := has tn t "creditor_tx",
+    hasInstr := has tn t "instructing_party_tx", has52 := has tn t "field_52", has26t := has tn t "field_26t",
+    has71a := has tn t "field_71a", has77b := has tn t "field_77b", has36 := has tn t "field_36",
+    ccy32b := strOf f32 "currency", amt32b := (f32.bind (·.getSome "amount")).bind absDec,
+    c33b := ccyAmt (field tn t "field_33b"),
+    ccy71f := (field tn t "field_71f").map (fun f => (f.strAt "currency").getD []),
+    ccy71g := (field tn t "field_71g").map (fun f => (f.strAt "currency").getD []) }
+def view104 (sn tn : String) (m : J) : V104 :=
+  { has21r := has sn m "field_21r", e23 := e23one (field sn m "field_23e"), has21e := has sn m "field_21e",
+    hasCreditor := has sn m "creditor", hasInstr := has sn m "instructing_party", has52 := has sn m "field_52",
+    has26t := has sn m "field_26t", has71a := has sn m "field_71a", has77b := has sn m "field_77b", has72 := has sn m "field_72",
+    txs := (fieldList sn m "transactions").map (tx104 tn),
+    c32b := ccyAmt (field sn m "field_32b"),
+    amt19 := (field sn m "field_19").map (fun f => (f.getSome "amount").bind absDec),
+    ccy71f := (field sn m "field_71f").map (fun f => (f.strAt "currency").getD []),
+    ccy71g := (field sn m "field_71g").map (fun f => (f.strAt "currency").getD []) }
+
+def codeIs (e : Option E23) (c : String) : Bool := match e with | some x => x.code == c.toList | none => false
+def r104_c1 (v : V104) : List Code :=
+  match v.e23 with
+  | some a =>
+    if a.code == "RFDD".toList then v.txs.flatMap (fun t => if t.e23.isNone then ["C75"] else [])
+    else v.txs.flatMap (fun t => if t.e23.isSome then ["C75"] else [])
+  | none => v.txs.flatMap (fun t => if t.e23.isNone then ["C75"] else [])
+def r104_c2 (code : Code) (v : V104) : Option Code :=
+  let inAll := !v.txs.isEmpty && v.txs.all (·.hasCreditor)
+  let inAny := v.txs.any (·.hasCreditor)
+  if v.hasCreditor && inAny then some code else if !v.hasCreditor && !inAll then some code else none
+def r104_c3 (v : V104) : List Code :=
+  (if v.has21e && v.txs.any (·.has21e) then ["D73"] else []) ++
+  (if v.has26t && v.txs.any (·.has26t) then ["D73"] else []) ++
+  (if v.has52 && v.txs.any (·.has52) then ["D73"] else []) ++
+  (if v.has71a && v.txs.any (·.has71a) then ["D73"] else []) ++
+  (if v.has77b && v.txs.any (·.has77b) then ["D73"] else []) ++
+  (if v.hasInstr && v.txs.any (·.hasInstr) then ["D73"] else [])
+def r104_c4 (v : V104) : List Code :=
+  (if v.has21e && !v.hasCreditor then ["D77"] else []) ++
+  v.txs.flatMap (fun t => if t.has21e && !t.hasCreditor then ["D77"] else [])
+def r104_c5 (v : V104) : Option Code :=
+  let rtnd := codeIs v.e23 "RTND"
+  if rtnd && !v.has72 then some "C82" else if !rtnd && v.has72 then some "C82" else none
+def r104_c6 (v : V104) : List Code :=
+  let fb := v.txs.any (·.ccy71f.isSome)
+  let gb := v.txs.any (·.ccy71g.isSome)
+  (if fb && v.ccy71f.isNone then ["D79"] else []) ++ (if !fb && v.ccy71f.isSome then ["D79"] else []) ++
+  (if gb && v.ccy71g.isNone then ["D79"] else []) ++ (if !gb && v.ccy71g.isSome then ["D79"] else [])
+/-- |a - b| < 1/100 exactly -/
+def withinCent (a b : Dec) : Bool :=
+  let s := max 2 (max a.scale b.scale)
+  let x := Dec.atScale a s
+  let y := Dec.atScale b s
+  (if x ≥ y then x - y else y - x) < 10 ^ (s - 2)
+def r104_c7 (v : V104) : List Code :=
+  v.txs.flatMap (fun t =>
+    match t.c33b, t.amt32b with
+    | some (c33, some a33), some a32 => if t.ccy32b == c33 && withinCent a32 a33 then ["D21"] else []
+    | _, _ => [])
+def r104_c8 (v : V104) : List Code :=
+  v.txs.flatMap (fun t =>
+    match t.c33b with
+    | some (c33, _) => if t.ccy32b != c33 then (if !t.has36 then ["D75"] else []) else (if t.has36 then ["D75"] else [])
+    | none => if t.has36 then ["D75"] else [])
+def sumDec (ds : List Dec) : Dec :=
+  let s := maxScale ds
+  ⟨(ds.map (Dec.atScale · s)).foldl (· + ·) 0, s⟩
+def r104_c9 (v : V104) : Option Code :=
+  match v.c32b with
+  | none => none
+  | some (_, settle) =>
+    match settle, v.txs.mapM (·.amt32b) with
+    | some a, some bs =>
+      let eq := withinCent a (sumDec bs)
+      if eq && v.amt19.isSome then some "D80" else if !eq && v.amt19.isNone then some "D80" else none
+    | _, _ => none
+def r104_c10 (v : V104) : Option Code :=
+  match v.amt19 with
+  | some (some a) =>
+    (match v.txs.mapM (·.amt32b) with
+     | some bs => if sumDiffersByMoreThanCent a bs then some "C01" else none
+     | none => none)
+  | _ => none
+/-- first element that differs from the head: reported once -/
+def anyDiffersFromFirst : List Text → Bool
+  | [] => false
+  | first :: rest => rest.any (· != first)
+def r104_c11 (v : V104) : List Code :=
+  (if anyDiffersFromFirst (v.txs.map (·.ccy32b) ++ (match v.c32b with | some (c, _) => [c] | none => [])) then ["C02"] else []) ++
+  (if anyDiffersFromFirst (v.txs.filterMap (·.ccy71g) ++ v.ccy71g.toList) then ["C02"] else []) ++
+  (if anyDiffersFromFirst (v.txs.filterMap (·.ccy71f) ++ v.ccy71f.toList) then ["C02"] else [])
+def r104_c12 (v : V104) : List Code :=
+  if codeIs v.e23 "RFDD" then
+    v.txs.flatMap (fun t =>
+      (if t.has21e then ["C96"] else []) ++ (if t.hasCreditor then ["C96"] else []) ++ (if t.has52 then ["C96"] else []) ++
+      (if t.ccy71f.isSome then ["C96"] else []) ++ (if t.ccy71g.isSome then ["C96"] else [])) ++
+    (if v.c32b.isSome then ["C96"] else [])
+  else (if v.has21r then ["C96"] else []) ++ (if v.c32b.isNone then ["C96"] else [])
+def e23check (valid : List Text) (withInfo : Text) (info : Code) (e : Option E23) : List Code :=
+  match e with
+  | some x => (if valid.contains x.code then [] else ["T47"]) ++ (if x.hasInfo && x.code != withInfo then [info] else [])
+  | none => []
+def word (ty : Nat) (name : String) : Text :=
+  match Generated.RuleTables.words.find? (fun p => p.1 == ty && p.2.1 == name) with
+  | some p => p.2.2
+  | none => []
+def r104_23e_a (v : V104) : List Code := e23check (tbl 104 "MT104_VALID_23E_CODES_SEQ_A") (word 104 "CODE_WITH_ADDITIONAL_INFO") "D81" v.e23
+def r104_23e_b (v : V104) : List Code :=
+  v.txs.flatMap (fun t => e23check (tbl 104 "MT104_VALID_23E_CODES_SEQ_B") (word 104 "CODE_WITH_ADDITIONAL_INFO") "D81" t.e23)
+
+/-! ### MT107 (same views as MT104) -/
+def placement (inA : Bool) (txs : List Bool) : Bool :=
+  let inAll := !txs.isEmpty && txs.all id
+  let inAny := txs.any id
+  (inA && inAny) || (!inA && !inAll)
+def r107_c1 (v : V104) : List Code :=
+  (if placement v.e23.isSome (v.txs.map (·.e23.isSome)) then ["D86"] else []) ++
+  (if placement v.hasCreditor (v.txs.map (·.hasCreditor)) then ["D86"] else [])
+def r107_c2 (v : V104) : List Code :=
+  (if v.has21e && v.txs.any (·.has21e) then ["D73"] else []) ++
+  (if v.has26t && v.txs.any (·.has26t) then ["D73"] else []) ++
+  (if v.has77b && v.txs.any (·.has77b) then ["D73"] else []) ++
+  (if v.has71a && v.txs.any (·.has71a) then ["D73"] else []) ++
+  (if v.has52 && v.txs.any (·.has52) then ["D73"] else []) ++
+  (if v.hasInstr && v.txs.any (·.hasInstr) then ["D73"] else [])
+def r107_c4 (v : V104) : Option Code :=
+  match v.e23 with
+  | some e =>
+    let rtnd := e.code == "RTND".toList
+    if rtnd && !v.has72 then some "C82" else if !rtnd && v.has72 then some "C82" else none
+  | none => if v.has72 then some "C82" else none
+/-- |a - b| ≥ 1/100 exactly -/
+def atLeastCent (a b : Dec) : Bool := !withinCent a b
+def r107_c8 (v : V104) : List Code :=
+  if v.txs.isEmpty then [] else
+  match v.txs.mapM (·.amt32b) with
+  | none => []
+  | some bs =>
+    let total := sumDec bs
+    let charges := v.txs.any (·.ccy71f.isSome) || v.txs.any (·.ccy71g.isSome)
+    if charges then
+      (match v.amt19 with
+       | some (some a) => if atLeastCent a total then ["C01"] else []
+       | some none => []
+       | none => ["D80"])
+    else
+      (match v.c32b with
+       | some (_, some a) => if atLeastCent a total then ["D80"] else []
+       | _ => []) ++ (if v.amt19.isSome then ["D80"] else [])
+def r107_c9 (v : V104) : List Code :=
+  if v.txs.isEmpty then [] else
+  let settle := match v.c32b with | some (c, _) => c | none => []
+  v.txs.flatMap (fun t =>
+    (if t.ccy32b != settle then ["C02"] else []) ++
+    (match t.ccy71f, v.ccy71f with | some c, some r => if c != r then ["C02"] else [] | _, _ => []) ++
+    (match t.ccy71g with
+     | some c => (if c != settle then ["C02"] else []) ++ (match v.ccy71g with | some r => if c != r then ["C02"] else [] | none => [])
+     | none => []))
+def r107_23e (v : V104) : List Code :=
+  e23check (tbl 107 "MT107_VALID_23E_CODES") "OTHR".toList "D81" v.e23 ++
+  v.txs.flatMap (fun t => e23check (tbl 107 "MT107_VALID_23E_CODES") "OTHR".toList "D81" t.e23)
+
 /-! ### aggregation: the regenerated stage list of each type, instantiated with the rule models by name -/
 
 def stagesOf (ty : Nat) : List (String × StageShape) :=
@@ -501,6 +780,23 @@ def rs192 : RuleSet V192 := [("validate_c1_field_79_or_copy", .opt r192_c1 true)
 def rs196 : RuleSet V196 := [("validate_c1_field_79_or_copy", .opt r196_c1 true)]
 def rs292 : RuleSet V292 := [("validate_c1_field_79_or_original_fields", .opt r292_c1 true)]
 def rs296 : RuleSet V292 := [("validate_c1_field_79_or_copy", .opt r296_c1 true)]
+def rs101 : RuleSet V101 := [("validate_c1_fx_deal_reference", .vec r101_c1 true), ("validate_c2_amount_exchange", .vec r101_c2 true),
+  ("validate_c3_ordering_customer", .opt r101_c3 true), ("validate_c4_instructing_party", .opt r101_c4 true),
+  ("validate_c5_currency_codes", .vec r101_c5 true), ("validate_c6_account_servicing", .opt r101_c6 true),
+  ("validate_c7_intermediary", .vec r101_c7 true), ("validate_c8_currency_consistency", .opt r101_c8 true),
+  ("validate_c9_zero_amount", .vec r101_c9 true), ("validate_field_23e", .vec r101_23e false)]
+def rs104 : RuleSet V104 := [("validate_c1_field_23e_dependencies", .vec r104_c1 true), ("validate_c2_creditor_field", .opt (r104_c2 "C76") true),
+  ("validate_c3_mutual_exclusivity", .vec r104_c3 true), ("validate_c4_registration_reference", .vec r104_c4 true),
+  ("validate_c5_field_72_rtnd", .opt r104_c5 true), ("validate_c6_charges_dependencies", .vec r104_c6 true),
+  ("validate_c7_currency_amount_difference", .vec r104_c7 true), ("validate_c8_exchange_rate", .vec r104_c8 true),
+  ("validate_c9_field_19", .opt r104_c9 true), ("validate_c10_field_19_amount", .opt r104_c10 true),
+  ("validate_c11_currency_consistency", .vec r104_c11 true), ("validate_c12_rfdd_comprehensive", .vec r104_c12 true),
+  ("validate_field_23e_seq_a", .vec r104_23e_a true), ("validate_field_23e_seq_b", .vec r104_23e_b false)]
+def rs107 : RuleSet V104 := [("validate_c1_23e_and_creditor_placement", .vec r107_c1 true), ("validate_c2_seq_a_b_mutual_exclusivity", .vec r107_c2 true),
+  ("validate_c3_registration_creditor_dependency", .vec r104_c4 true), ("validate_c4_rtnd_field_72_dependency", .opt r107_c4 true),
+  ("validate_c5_charges_fields_consistency", .vec r104_c6 true), ("validate_c6_field_33b_32b_comparison", .vec r104_c7 true),
+  ("validate_c7_exchange_rate_dependency", .vec r104_c8 true), ("validate_c8_sum_of_amounts", .vec r107_c8 true),
+  ("validate_c9_currency_consistency", .vec r107_c9 true), ("validate_field_23e", .vec r107_23e false)]
 def rs103 : RuleSet V103 := [("validate_field_23b", .opt r103_23b true), ("validate_field_23e", .vec r103_23e true),
   ("validate_c1_currency_exchange", .opt r103_c1 true), ("validate_c3_bank_op_instruction_codes", .vec r103_c3 true),
   ("validate_c4_third_reimbursement", .opt r103_c4 true), ("validate_c5_intermediary", .opt r103_c5 true),
@@ -530,6 +826,9 @@ def validateJson (ty : Nat) (m : J) : Option (List Code) :=
   | 292 => some (rs292.validate (view292 "MT292" m))
   | 296 => some (rs296.validate (view292 "MT296" m))
   | 103 => some (rs103.validate (view103 m))
+  | 101 => some (rs101.validate (view101 m))
+  | 104 => some (rs104.validate (view104 "MT104" "MT104Transaction" m))
+  | 107 => some (rs107.validate (view104 "MT107" "MT107Transaction" m))
   | other =>
     -- a type whose regenerated `validate_network_rules` has no stage at all reports nothing
     if (Generated.Stages.table.any (·.1 == other)) && (stagesOf other).isEmpty then some [] else none
@@ -538,6 +837,6 @@ def validateJson (ty : Nat) (m : J) : Option (List Code) :=
 def modelled : List (Nat × List (String × StageShape)) :=
   [(110, rs110.shapes), (200, rs200.shapes), (202, rs202.shapes), (204, rs204.shapes), (205, rs205.shapes), (210, rs210.shapes),
    (910, rs910.shapes), (920, rs920.shapes), (941, rs941.shapes), (950, rs950.shapes), (935, rs935.shapes), (940, rs940.shapes),
-   (942, rs942.shapes), (192, rs192.shapes), (196, rs196.shapes), (292, rs292.shapes), (296, rs296.shapes), (103, rs103.shapes)]
+   (942, rs942.shapes), (192, rs192.shapes), (196, rs196.shapes), (292, rs292.shapes), (296, rs296.shapes), (103, rs103.shapes), (101, rs101.shapes), (104, rs104.shapes), (107, rs107.shapes)]
 
 end SwiftMT.Rules
